@@ -344,6 +344,32 @@ def h_carbon(fa0: bool, fa1: bool, fb0: bool, fb1: bool, fc0: bool, fc1: bool) -
     return _mu.is_carbon_balanced(rs + ">>" + ps) == (rc == pc)
 
 
+def h_carbon_history(fa0: bool, fa1: bool, fb0: bool, fb1: bool) -> bool:
+    """
+    post: _
+    """
+    # a checker for another atom type runs first over the same molecules (same process), then a fresh carbon
+    # checker: its labels must be those of the true carbon counts (no state may leak between checker instances)
+    from vf.world import pipe as _pipe
+
+    mols, cnt = _flag_world(fa0, fa1, fb0, fb1, True, False)
+    _ccb.Chem = _TokChem(mols)
+    _ccb.Parallel = _pipe.SeqParallel
+    _ccb.delayed = _pipe.seq_delayed
+    rs, ps = PART.get("rxn", ["A.D", "B"])
+    rows = [{"r": rs + ">>" + ps}]
+    first = CheckCarbonBalance([dict(r) for r in rows], rsmi_col="r", symbol=">>", atom_type=PART.get("first", "O"), n_jobs=1)
+    first.check_carbon_balance()
+    second = CheckCarbonBalance([dict(r) for r in rows], rsmi_col="r", symbol=">>", atom_type="C", n_jobs=1)
+    out = second.check_carbon_balance()
+    if PART.get("twin"):
+        return out[0]["carbon_balance_check"] != "balanced"
+    rc = sum(cnt[t] for t in rs.split("."))
+    pc = sum(cnt[t] for t in ps.split("."))
+    exp = "balanced" if rc == pc else ("products" if rc > pc else "reactants")
+    return len(out) == 1 and out[0]["carbon_balance_check"] == exp
+
+
 def plan(tier):
     nk = 4 if tier == "thorough" else 3
     P = []
@@ -369,6 +395,9 @@ def plan(tier):
         rxns += [["A.B", "B.A"], ["A", "A.B.D"], ["B.B", "D.D"]]
     for rx in rxns:
         P.append(Part(H + "h_carbon", {"rxn": rx}, "carbon_label[%s>>%s]" % tuple(rx), group="carbon"))
+    for first in ("O", "C"):
+        P.append(Part(H + "h_carbon_history", {"first": first}, "carbon_label.history[%s-checker first]" % first, group="carbon"))
+    P.append(Part(H + "h_carbon_history", {"twin": 1}, "carbon_label.history.twin", kind="twin", group="carbon"))
     for tw in ("balanced", "products", "reactants"):
         P.append(Part(H + "h_carbon", {"twin": tw}, "carbon_label.twin[%s]" % tw, kind="twin", group="carbon"))
     return P
